@@ -21,6 +21,18 @@ _WIP = "check not built yet in this session (design in DESIGN.md section 6); not
 NOT_APPLICABLE = {("C%02d" % i): _WIP for i in range(1, 21)}
 
 PROPS = {
+    "C01": {
+        "engine": "c01", "monitors": ["mon"], "finding_checks": {"montn": "typed-nil-in-abstract-position"},
+        "engine_timeout": {"quick": 900, "thorough": 7200},
+        "technique": "Coq proof (value completion of gqlgen = CompleteValue of the specification by induction over outcome trees; response keys unique by an invariant over collectFields; one error per failure) + differential correspondence of probe servers generated at check time against the model of gqlgen and against the model of the GraphQL algorithm",
+        "level_text": "Theorems over every outcome tree (any list/object nesting, nullability, failing positions): gqlgen's Null-marker/Invalids completion equals the specification's CompleteValue (same errors in order, same data, null at the nearest nullable ancestor) except the kept typed-nil finding, whose exact rule is also proved; errors are in bijection with originating failures and carry their paths; the repaired collectFields yields each response key once for validated selections of one object, and a skipped spread is not a visit (pinned commit refuted). Every check regenerates the probe servers from the current templates for the configuration matrix, runs random valid operations under oracle-driven outcomes and compares data, errors and resolver log with the executable model of gqlgen (correspondence) and with the model of the GraphQL execution algorithm (monitor). Not yet proved: equality of the two collect algorithms up to repeated sub-selections (checked by the correspondence only): partial.",
+        "level_note": "Trusted: Coq kernel + vm_compute; harness (probe factory, universal resolver, canonicaliser, operation/oracle generators); gqlparser validation establishes the well-formedness hypotheses of C01_collect_keys_unique; argument coercion is outside this check (C02).",
+        "trusted": ["gqlparser validation (FieldsInSetCanMerge, fragment type conditions) establishes the hypotheses of C01_collect_keys_unique",
+                    "resolver / directive behaviour is an oracle; the universal resolver installed by reflection implements it on the Go side",
+                    "error messages are compared by class (resolver tag, directive tag, panic tag, null-in-non-null)"],
+        "assumptions": ["leaf values are a function of the field name; custom scalars, arguments and @defer are outside this check",
+                        "fuel 40 bounds selection depth in the executable model (operations generated are at most 6 deep)"],
+    },
     "C03": {
         "engine": "c03", "monitors": ["c03"],
         "technique": "Coq proof (gate theorem over the executor/transport model for all oracles, extension lists and caches; nesting and exactly-once of processExtensions; cache invariant by induction over histories) + differential correspondence against handler.Server with instrumented extensions",
